@@ -15,7 +15,7 @@
 (*   equal    dense `=` of assignments, local, numeric for, type declarations (break_equal) *)
 (*   longstr  dense, readable long-bracket strings (break_long_string)                      *)
 (*   raw      `.` of a field access, `(` of call arguments (merge_char / raw_push_char)      *)
-EXTENDS Integers, Sequences
+EXTENDS Integers, Sequences, IOUtils
 IsDigitC(c) == c >= 48 /\ c <= 57
 IsAlphaC(c) == (c >= 65 /\ c <= 90) \/ (c >= 97 /\ c <= 122)
 \* should_break_with_space(ending_character, next_character)
@@ -34,7 +34,13 @@ BreakLongString(last) == LastOf(last) = 91
 BreakVariableArguments(last) == IF LastOf(last) = 46 THEN TRUE ELSE IF Len(last) > 0 THEN (last[1] = 46 \/ IsDigitC(last[1])) ELSE FALSE
 BreakMinus(last) == LastOf(last) = 45
 BreakEqual(last) == LastOf(last) = 62
-BreakConcat(last) == IF LastOf(last) = 46 THEN TRUE ELSE IF Len(last) > 0 THEN (last[1] = 46 \/ IsDigitC(last[1])) ELSE FALSE
+\* the leading minus signs of a negative number are skipped (repaired finding F-C02-b; DEV_NEG_CONCAT=1 in the
+\* environment restores the old rule, which looked at the very first character, for demonstrations)
+DevNegConcat == "DEV_NEG_CONCAT" \in DOMAIN IOEnv /\ IOEnv.DEV_NEG_CONCAT = "1"
+RECURSIVE TrimMinus(_)
+TrimMinus(s) == IF Len(s) > 0 /\ s[1] = 45 THEN TrimMinus(Tail(s)) ELSE s
+BreakConcat(last) == LET l == IF DevNegConcat THEN last ELSE TrimMinus(last) IN
+                     IF LastOf(last) = 46 THEN TRUE ELSE IF Len(l) > 0 THEN (l[1] = 46 \/ IsDigitC(l[1])) ELSE FALSE
 Modes == {"std", "concat", "varargs", "minus", "equal", "longstr", "raw"}
 \* does the generator put a separator (space or newline) between `last` (already written) and `next`?
 Separates(mode, last, next) ==
